@@ -23,17 +23,30 @@ def wordCountOf (andx : Bool) (rawP : Bytes) : Nat := andxWords andx + (rawP.len
 /-- the default AndX block a command creates when none is set: NO_ANDX_COMMAND, reserved 0, offset 0 -/
 def andxBytes (andx : Bool) : Bytes := if andx then [0xFF, 0x00, 0x00, 0x00] else []
 
-/-- `WordCount` byte, then all the words unless the (truncated) count is zero -/
-def paramBlock (andx : Bool) (rawP : Bytes) : Bytes :=
+/-- the two AndX words on the wire: `AndX.GetParameters()` = `[command<<8 | reserved, offset]`, each added with
+    `AddWord` and written by `Parameters.Marshal` high byte first — so the offset goes out big-endian -/
+def andxBytesOf (andx : Bool) (env : Env) : Bytes :=
+  if andx then
+    match env.get andxField with
+    | some (.ns [c, r, o]) => [UInt8.ofNat c, UInt8.ofNat r, UInt8.ofNat (o / 256), UInt8.ofNat (o % 256)]
+    | _ => andxBytes true
+  else []
+
+/-- the fields a round trip is about: the declared ones and, for an AndX command, its AndX block -/
+def Cmd.roundTripFields (c : Cmd) : List String := c.fields.map (·.1) ++ (if c.isAndX then [andxField] else [])
+
+/-- `WordCount` byte, then all the words (`ax`: the AndX words, already in the block when the raw stream is added)
+    unless the (truncated) count is zero -/
+def paramBlock (andx : Bool) (ax : Bytes) (rawP : Bytes) : Bytes :=
   let wc := wordCountOf andx rawP % 256
-  UInt8.ofNat wc :: (if wc > 0 then andxBytes andx ++ wordsBytes rawP else [])
+  UInt8.ofNat wc :: (if wc > 0 then ax ++ wordsBytes rawP else [])
 
 /-- `ByteCount` (uint16 of the length, little-endian) then all the bytes -/
 def dataBlock (rawD : Bytes) : Bytes := natLe 2 (rawD.length % 65536) ++ rawD
 
 def encodeCmd (C : Codecs) (c : Cmd) (env : Env) : Outcome Bytes :=
   match runM C c env with
-  | .ok s => .ok (s.head ++ paramBlock c.isAndX s.P ++ dataBlock s.D)
+  | .ok s => .ok (s.head ++ paramBlock c.isAndX (andxBytesOf c.isAndX (prologueEnv c.isAndX env)) s.P ++ dataBlock s.D)
   | .err => .err
   | .panic => .panic
 
@@ -139,13 +152,16 @@ def isSublistOf [BEq α] : List α → List α → Bool
     `P`/`D = some e`: the last guard established `len(blk) ≥ offset + e` and nothing changed since;
     `leP`/`leD`: `offset ≤ len(blk)`;
     `sub = some b`: `bytesRead ≤ len(b) - offset` (a nested decoder just consumed from `b[offset:…]`
-    and reports no more than it was given — the codec honesty law proved in C06). -/
+    and reports no more than it was given — the codec honesty law proved in C06);
+    `minP = n`: `len(P) ≥ n` (an `AndX.Unmarshal` of the parameter stream succeeded; nothing but
+    `P = P[n:]` changes the stream afterwards). -/
 structure Known where
   P : Option Expr := none
   D : Option Expr := none
   leP : Bool := false
   leD : Bool := false
   sub : Option Blk := none
+  minP : Nat := 0
   deriving Inhabited
 
 def Known.get (k : Known) : Blk → Option Expr
@@ -183,6 +199,10 @@ def Known.forget (k : Known) (f : String) : Known :=
   { k with
     P := k.P.filter (fun e => !e.mentions f), D := k.D.filter (fun e => !e.mentions f),
     leP := k.le .P, leD := k.le .D }
+
+/-- `P = P[n:]`: what was known about `offset` inside the parameter stream is void; the data stream is untouched -/
+def Known.resliceP (k : Known) (n : Nat) : Known :=
+  { D := k.D, leD := k.le .D, sub := if k.sub == some .D then some .D else none, minP := k.minP - n }
 
 /-- after `offset` moved by an unknown amount nothing is known -/
 def Known.none : Known := {}
@@ -232,6 +252,10 @@ def guardedStmt (k : Known) : UStmt → Option Known
   | .whileFitsSub _ _ _ size => if 0 < size then some Known.none else none
   | .cstrUnicode _ => some { leD := true }      -- never indexes past the end; returns an offset ≤ len(D)
   | .readArr3 b f => if covered k b (.lit 12) then some { (k.forget f) with sub := none } else none
+  -- `AndX.Unmarshal(P)` checks `len(P) ≥ 4` itself and returns an error otherwise: afterwards four bytes are there
+  | .readAndX => some { (k.forget andxField) with minP := max k.minP 4 }
+  -- `P[n:]` needs `n ≤ len(P)`: only after a check that secured `n` bytes
+  | .resliceP n => if n ≤ k.minP then some (k.resliceP n) else none
 def guardedStmts (k : Known) : List UStmt → Option Known
   | [] => some k
   | s :: rest =>
@@ -318,6 +342,11 @@ def fixedSize (typ : String) : Option Nat :=
   else if typ == "LOCKING_ANDX_RANGE64" then some 20
   else none
 
+/-- nested types whose decoder accepts nothing but exactly its own encoding (`SMB_NMPIPE_STATUS.Unmarshal`:
+    `len(data) != 2` is an error, pinned by the repository's suite — C06 finding `nmpipe_trailing`): the round trip
+    can only go through a window of exactly that size -/
+def exactLen (typ : String) : Bool := typ == "SMB_NMPIPE_STATUS"
+
 /-- the field a marshal statement of the straight-line fragment assigns in the command itself -/
 def MStmt.modifies : MStmt → Option String
   | .sub _ f _ | .setFmt f _ | .assignLen f _ _ => some f
@@ -368,7 +397,8 @@ def guardFits (b : Blk) (e : Expr) : List UStmt → Bool
 
 /-- offset discipline of an unmarshal program of the straight-line fragment (`layoutU` accepts it):
     each block is read in one run starting at `offset = 0`; length expressions only mention fields
-    already read; guards fit the read they protect; a fixed window has the size of the nested type;
+    already read; guards fit the read they protect; a fixed window has the size of the nested type, and a
+    nested type that rejects trailing bytes is only read through one;
     an early `return 0, nil` on empty blocks tests every block that has slots (`hp`/`hd`: the
     parameter / data block has slots) -/
 def okU (hp hd : Bool) : UPos → List String → List UStmt → Bool
@@ -384,31 +414,46 @@ def okU (hp hd : Bool) : UPos → List String → List UStmt → Bool
   | pos, seen, .readRest b f :: .advance _ :: r => pos.canRead b && okU hp hd (pos.read b) (f :: seen) r
   | pos, seen, .readArr b f _ :: .advance _ :: r => pos.canRead b && okU hp hd (pos.read b) (f :: seen) r
   | pos, seen, .readSub b f t win _ _ _ :: .advanceRead :: r =>
-    pos.canRead b && (match win with | some n => fixedSize t == some n | none => true) &&
+    pos.canRead b && (match win with | some n => fixedSize t == some n | none => !exactLen t) &&
       okU hp hd (pos.read b) (f :: seen) r
   | _, _, _ :: _ => false
 
 /-- the slot-for-slot comparison of the two layouts (the part of `Mirror` about what is on the wire) -/
-def mirrorSlots (isAndX : Bool) (m u : List Slot) : Bool :=
+def mirrorSlots (m u : List Slot) : Bool :=
   let mP := m.filter (·.blk == .P); let mD := m.filter (·.blk == .D)
   let uP := u.filter (·.blk == .P); let uD := u.filter (·.blk == .D)
-  agreeAll mP uP && agreeAll mD uD && restOnlyLast uP && restOnlyLast uD &&
-  (!isAndX || mP.isEmpty)     -- no Unmarshal consumes the two AndX words
+  agreeAll mP uP && agreeAll mD uD && restOnlyLast uP && restOnlyLast uD
+
+/-- the AndX stanza of an unmarshal program: after nothing but early returns that test the parameter
+    stream (which cannot fire once the AndX words are there), the AndX block is read from the head of
+    the parameter stream and exactly its four bytes are cut off; the result is the rest of the program,
+    which then sees the command's own parameters from offset 0 -/
+def splitAndX : List UStmt → Option (List UStmt)
+  | .retIfEmpty true _ :: r => splitAndX r
+  | .readAndX :: .resliceP 4 :: r => some r
+  | _ => none
+
+/-- the part of the unmarshal program that reads the declared fields: for an AndX command what follows
+    the AndX stanza (which must be there: `Marshal` puts the two AndX words first), otherwise all of it -/
+def bodyU (c : Cmd) : Option (List UStmt) := if c.isAndX then splitAndX c.unmarshal else some c.unmarshal
 
 /-- C04 static predicate: both programs are straight-line, describe the same slots per block in the
-    same order, and the unmarshal program accounts for the AndX words the marshal program emits
-    (`mirrorSlots`); moreover — the side conditions without which the round trip is not a theorem —
-    Marshal does not change a field after emitting it (`stableM`), Unmarshal keeps the offset
+    same order (`mirrorSlots`), and the unmarshal program of an AndX command consumes the AndX words
+    the marshal prologue emits before it reads the first field (`bodyU`); moreover — the side conditions without which the round trip is not a theorem —
+    Marshal does not change a field after emitting it (`stableM`) and never the AndX block, Unmarshal keeps the offset
     discipline, reads lengths before the buffers they describe, guards no more than it reads
     (`okU`), and every declared field is on the wire. -/
 def Mirror (c : Cmd) : Bool :=
-  match layoutM c.marshal, layoutU c.unmarshal with
-  | some m, some u =>
-    mirrorSlots c.isAndX m u &&
-    stableM c.marshal &&
-    okU (!(u.filter (·.blk == .P)).isEmpty) (!(u.filter (·.blk == .D)).isEmpty) {} [] c.unmarshal &&
-    (c.fields.map (·.1)).all (fun f => (u.map Slot.field).contains f)
-  | _, _ => false
+  match bodyU c with
+  | none => false
+  | some body =>
+    match layoutM c.marshal, layoutU body with
+    | some m, some u =>
+      mirrorSlots m u &&
+      stableM c.marshal && c.marshal.all (fun s => s.modifies != some andxField) &&
+      okU (!(u.filter (·.blk == .P)).isEmpty) (!(u.filter (·.blk == .D)).isEmpty) {} (if c.isAndX then [andxField] else []) body &&
+      (c.fields.map (·.1)).all (fun f => (u.map Slot.field).contains f)
+    | _, _ => false
 
 /-- bytes a slot contributes, read off the field values (for `sub`: what the nested encoder emits);
     `[]` when the field is absent or holds a value of another kind -/
@@ -450,7 +495,7 @@ def slotAt (f : String) : List Slot → Nat → Option (Nat × Nat)
     when the marshal program is straight-line, exactly one statement touches the field, and only
     fixed-width slots precede it in the parameter block (then the offset does not depend on values) -/
 def slotRange (c : Cmd) (f : String) : Option (Nat × Nat) :=
-  if (c.marshal.filter (·.mentions f)).length != 1 then none else
+  if f == andxField || (c.marshal.filter (·.mentions f)).length != 1 then none else
   match layoutM c.marshal with
   | none => none
   | some m =>
@@ -505,12 +550,13 @@ def tupOk (C : Codecs) (typ : String) (v : Tup) : Bool :=
 
 /-- laws the nested codecs must satisfy for the types `T` (for the standard codecs they follow from the
     C06 models): `Marshal` is idempotent on the value it leaves behind; a value of the domain decodes
-    from its encoding followed by anything, consuming exactly the encoding; the types with a
+    from its encoding followed by anything (by nothing, for the `exactLen` types), consuming exactly the
+    encoding; the types with a
     `fixedSize` always encode to that many bytes. -/
 structure LawfulCodecs (C : Codecs) (T : String → Prop) : Prop where
   idem : ∀ typ v bs v', T typ → C.enc typ v = .ok (bs, v') → C.enc typ v' = .ok (bs, v')
   rt : ∀ typ v bs v', T typ → C.enc typ v = .ok (bs, v') → tupOk C typ v = true →
-        ∀ suffix, C.dec typ (bs ++ suffix) = .ok (v', bs.length)
+        ∀ suffix, suffix = [] ∨ exactLen typ = false → C.dec typ (bs ++ suffix) = .ok (v', bs.length)
   size : ∀ typ n v bs v', T typ → fixedSize typ = some n → C.enc typ v = .ok (bs, v') → bs.length = n
 
 /-- the extra law the re-encoding corollary needs, for the types `F` whose buffer format `Marshal`
@@ -520,15 +566,23 @@ structure LawfulFmt (C : Codecs) (F : String → Prop) : Prop where
 
 /-- shape of a marshal program (of the straight-line fragment) whose second run, on the field values
     the first run left behind, changes nothing: every `SetBufferFormat` (with a one-byte format) is
-    immediately followed by the `Marshal` of the same nested field; no `c.F = len(c.G)` -/
+    immediately followed by the `Marshal` of the same nested field; after a `c.F = len(c.G)` nothing
+    assigns `F` or `G` any more (so the second run computes the length of the same buffer) -/
 def reencodableM : List MStmt → Bool
   | [] => true
   | .setFmt f k :: r =>
     (match r with
       | .sub _ g _ :: _ => f == g && decide (k < 256)
       | _ => false) && reencodableM r
-  | .assignLen _ _ _ :: _ => false
+  | .assignLen f g _ :: r =>
+    f != g && r.all (fun s => s.modifies != some f && s.modifies != some g) && reencodableM r
   | _ :: r => reencodableM r
+
+/-- the fields a `c.F = len(c.G)` statement writes and reads -/
+def lenFieldsM : List MStmt → List String
+  | [] => []
+  | .assignLen f g _ :: r => f :: g :: lenFieldsM r
+  | _ :: r => lenFieldsM r
 
 /-- nested types marshalled right after a `SetBufferFormat` -/
 def fmtTypesM : List MStmt → List String
@@ -539,9 +593,10 @@ def fmtTypesM : List MStmt → List String
 def Cmd.fmtTypes (c : Cmd) : List String := fmtTypesM c.marshal
 
 /-- static side condition of the re-encoding corollary: `reencodableM`, and the marshal program only
-    emits declared fields -/
+    emits (and measures, and sets the length of) declared fields -/
 def Reencodable (c : Cmd) : Bool :=
   reencodableM c.marshal &&
+  (lenFieldsM c.marshal).all (fun f => (c.fields.map (·.1)).contains f) &&
   (match layoutM c.marshal with
     | some m => (m.map Slot.field).all (fun f => (c.fields.map (·.1)).contains f)
     | none => false)
@@ -560,43 +615,55 @@ def intsFit (env : Env) : List MStmt → Bool
 
 /-- the relations between fields the unmarshal program relies on: a buffer read with length
     `int(c.G)` has exactly that many bytes, a counted list has exactly `c.G` entries, padding has the
-    computed length, fixed arrays have their size, nested values are in their domain.  Window sizes
+    computed length (`plen`: the length of the command's own parameter bytes, which the alignment rule
+    `(len(P)+3)%2` of SESSION_SETUP_ANDX looks at), fixed arrays have their size, nested values are in their domain.  Window sizes
     and entry sizes of the program are *not* consulted: they are the library's business. -/
-def relationsHold (C : Codecs) (env : Env) : (pad : Nat) → List UStmt → Bool
+def relationsHold (C : Codecs) (env : Env) (plen : Nat) : (pad : Nat) → List UStmt → Bool
   | _, [] => true
   | pad, .readBytes _ f e :: r =>
     (match env.get f, e with
       | some (.b bs), .pad => bs.length == pad
       | some (.b bs), e => evalEnv env e == some bs.length
-      | _, _ => false) && relationsHold C env pad r
-  | pad, .readArr _ f n :: r => (match env.get f with | some (.b bs) => bs.length == n | _ => false) && relationsHold C env pad r
-  | pad, .readSub _ f typ _ _ _ _ :: r => (match env.get f with | some (.t v) => tupOk C typ v | _ => false) && relationsHold C env pad r
+      | _, _ => false) && relationsHold C env plen pad r
+  | pad, .readArr _ f n :: r => (match env.get f with | some (.b bs) => bs.length == n | _ => false) && relationsHold C env plen pad r
+  | pad, .readSub _ f typ _ _ _ _ :: r => (match env.get f with | some (.t v) => tupOk C typ v | _ => false) && relationsHold C env plen pad r
   | pad, .forCountInt _ _ _ f g :: r =>
-    (match env.get f, env.get g with | some (.ns xs), some (.n k) => xs.length == k | _, _ => false) && relationsHold C env pad r
+    (match env.get f, env.get g with | some (.ns xs), some (.n k) => xs.length == k | _, _ => false) && relationsHold C env plen pad r
   | pad, .forCountSub _ f g typ _ :: r =>
-    (match env.get f, env.get g with | some (.ts vs), some (.n k) => vs.length == k && vs.all (tupOk C typ) | _, _ => false) && relationsHold C env pad r
+    (match env.get f, env.get g with | some (.ts vs), some (.n k) => vs.length == k && vs.all (tupOk C typ) | _, _ => false) && relationsHold C env plen pad r
   | pad, .whileFitsSub _ f typ _ :: r =>
-    (match env.get f with | some (.ts vs) => vs.all (tupOk C typ) | _ => false) && relationsHold C env pad r
+    (match env.get f with | some (.ts vs) => vs.all (tupOk C typ) | _ => false) && relationsHold C env plen pad r
   | pad, .cstrUnicode f :: r =>
     -- a UTF-16 string: an even number of bytes, no 0x0000 unit
-    (match env.get f with | some (.b bs) => bs.length % 2 == 0 && (cstrUnicode (bs ++ [0, 0])).1 == bs | _ => false) && relationsHold C env pad r
-  | _, .setPad e :: r => (match evalEnv env e with | some n => relationsHold C env n r | none => false)
-  | pad, .padRoundUp :: r => relationsHold C env (if pad % 2 = 1 then pad + 1 else pad) r
-  | pad, .ifWordCount _ body :: r => relationsHold C env pad body && relationsHold C env pad r
-  | pad, _ :: r => relationsHold C env pad r
+    (match env.get f with | some (.b bs) => bs.length % 2 == 0 && (cstrUnicode (bs ++ [0, 0])).1 == bs | _ => false) && relationsHold C env plen pad r
+  | _, .setPad e :: r => (match evalEnv env e with | some n => relationsHold C env plen n r | none => false)
+  | pad, .padRoundUp :: r => relationsHold C env plen (if pad % 2 = 1 then pad + 1 else pad) r
+  | pad, .padIfPOdd :: r => relationsHold C env plen (if (plen + 3) % 2 = 1 then 1 else pad) r
+  | pad, .ifWordCount _ body :: r => relationsHold C env plen pad body && relationsHold C env plen pad r
+  | pad, _ :: r => relationsHold C env plen pad r
+
+/-- the AndX block an AndX command goes out with (the one set, or the default of the prologue) is a
+    command byte, a reserved byte and a 16-bit offset -/
+def andxOk (andx : Bool) (env : Env) : Bool :=
+  !andx ||
+  (match (prologueEnv andx env).get andxField with
+    | some (.ns [c, r, o]) => c < 256 && r < 256 && o < 65536
+    | _ => false)
 
 /-- C04 "internally consistent" -/
 def consistent (C : Codecs) (c : Cmd) (env : Env) : Bool :=
+  andxOk c.isAndX env &&
   match runM C c env with
   | .ok s =>
-    intsFit s.env c.marshal && relationsHold C s.env 0 c.unmarshal &&
+    intsFit s.env c.marshal && relationsHold C s.env s.P.length 0 c.unmarshal &&
     s.P.length % 2 == 0 && wordCountOf c.isAndX s.P ≤ 255 && s.D.length ≤ 65535 &&
     (s.P.length > 0 || s.D.length > 0 || c.fields.isEmpty) && s.head.isEmpty
   | _ => false
 
 /-! known C04 findings, decided on the extracted programs (not on the failing input):
-    `andx-not-consumed`: an AndX command whose Unmarshal reads parameter fields from offset 0 although
-    its Marshal put the two AndX words first; `field-not-marshalled`: a declared field no marshal
+    `andx-not-consumed`: an AndX command whose Unmarshal does not consume the two AndX words its Marshal
+    put first (no instance on this tree since fixes/C04-andx-consumed.diff; kept so that a command losing
+    the stanza is named for what it is); `field-not-marshalled`: a declared field no marshal
     statement emits; … -/
 mutual
 def emittedStmt : MStmt → List String
@@ -641,7 +708,7 @@ def RtFinding.key : RtFinding → String
 def knownRtKind (c : Cmd) : Option RtFinding :=
   let em := emittedDeep c.marshal
   let rd := readDeep c.unmarshal
-  if c.isAndX && (c.marshal.filterMap emittedField).any (·.1 == .P) then some .andxNotConsumed
+  if c.isAndX && (splitAndX c.unmarshal).isNone then some .andxNotConsumed
   else if (c.fields.map (·.1)).any (fun f => !em.contains f) then some .fieldNotMarshalled
   else if em.any (fun f => !rd.contains f) then some .fieldNotUnmarshalled
   -- two or more nested values each decoded from the start of the block instead of from `offset`
@@ -660,10 +727,20 @@ def knownRt (c : Cmd) : String :=
   | some k => k.key ++ ":" ++ c.name
   | none => ""
 
+/-- C05 finding `be:AndXOffset`: the AndX block the command holds has an offset whose two bytes differ — the
+    AndX words are written as 16-bit words, high byte first (`AndX.GetParameters`, `Parameters.Marshal`;
+    the repository's andx tests pin `AndX.Marshal`/`Unmarshal` to the same byte order), MS-CIFS has
+    AndXOffset little-endian -/
+def andxOffsetBigEndian (andx : Bool) (env : Env) : Bool :=
+  andx && (match env.get andxField with
+    | some (.ns [_, _, o]) => o / 256 % 256 != o % 256
+    | _ => false)
+
 /-- known C05 findings: a nested value whose Go encoder is big-endian (`SMB_FILE_ATTRIBUTES`, pinned
     by the repository's own tests) inside this command -/
 def knownEnc (c : Cmd) (env : Env) : String :=
-  if c.marshal.any (fun s => match s with | .sub _ _ "SMB_FILE_ATTRIBUTES" => true | _ => false) then "be:SMB_FILE_ATTRIBUTES"
+  if andxOffsetBigEndian c.isAndX env then "be:AndXOffset"
+  else if c.marshal.any (fun s => match s with | .sub _ _ "SMB_FILE_ATTRIBUTES" => true | _ => false) then "be:SMB_FILE_ATTRIBUTES"
   -- buffer format 0x03 is written as `03 len16 bytes 00` (MS-CIFS: `03 bytes 00`)
   else if c.marshal.any (fun s => match s with
       | .sub _ f "SMB_STRING" => (match env.get f with | some (.t (3 :: _, _)) => true | _ => false)
